@@ -375,6 +375,7 @@ def shard_gate(ctx, shard, acc):
         ['live_' + c for c in CLAUSES] +
         ['want_pass', 'want_block', 'want_either', 'stat_excluded',
          'stat_excluded_code_blocks', 'stat_excluded_code_passes',
+         'stat_excluded_disagree',
          'got_pass', 'got_block', 'either_code_passes', 'either_code_blocks',
          'unanimity_on', 'with_change_request', 'crosschecks', 'groups',
          'groups_settings_refused',
@@ -458,6 +459,10 @@ def shard_gate(ctx, shard, acc):
                         cnt['stat_excluded'] += 1
                         if got == 'block':
                             cnt['stat_excluded_code_blocks'] += 1
+                            if not failing:
+                                # the only clause the code can be failing
+                                # here is its set-equality for unanimity
+                                cnt['stat_excluded_disagree'] += 1
                         elif got == 'pass':
                             cnt['stat_excluded_code_passes'] += 1
                         if got in ('pass', 'block'):
@@ -520,6 +525,8 @@ def shard_gate(ctx, shard, acc):
         cnt['stat_excluded_code_blocks']
     acc.extra['excluded_statistic_cells_code_passes'] = \
         cnt['stat_excluded_code_passes']
+    acc.extra['excluded_statistic_cells_statement_would_not_block'] = \
+        cnt['stat_excluded_disagree']
     acc.extra['fresh_job_crosschecks'] = cnt['crosschecks']
     acc.extra['gate_cases'] = n
     acc.extra['gate_groups'] = cnt['groups']
